@@ -275,7 +275,10 @@ int main(int argc, char** argv) {
       case 3: history<unodb::mutex_db<unodb::key_view, V>>(r, h, a); break;
       case 4: history<unodb::olc_db<std::uint64_t, V>>(r, h, a); break;
       case 5: history<unodb::olc_db<unodb::key_view, V>>(r, h, a); break;
-      default: multithreaded(r, h, a); break;
+      default:
+        if (a.num("no-mt", 0) != 0) history<unodb::olc_db<std::uint64_t, V>>(r, h, a);  // memcheck runs: no concurrent optimistic readers
+        else multithreaded(r, h, a);
+        break;
     }
     rep().evaluation();
     total.trace = vh::hash_combine(total.trace, h.trace);
